@@ -313,7 +313,13 @@ class DGen:
         for _ in range(r.choice([0, 0, 1, 2])):
             toks += self.sep(top) + self.andor(d, plain)
         if end_sep:
-            toks += self.sep(top)
+            # a reserved word is recognised directly after a compound command (and its redirections): the separator before
+            # then / do / done / fi / elif / else / esac / } may be left out there
+            # (the separator is always drawn, so that the structure draws do not depend on this layout decision; '&' is structure)
+            lc = getattr(self, "last_compound", False)
+            sp = self.sep(top)
+            if not (lc and not top and sp[0].kind != "AMP" and self.n.random() < 0.3):
+                toks += sp
         elif end_sep is None and self.n.random() < 0.3:
             toks += self.sep(top, amp_ok=False)      # an optional trailing ';' or newline
         return toks
@@ -399,6 +405,7 @@ class DGen:
         r = self.r
         k = r.random()
         if kind == "simple" or (kind is None and (d <= 0 or k < 0.5)):
+            self.last_compound = False
             return self.simple(d, plain)
         if kind == "func" or (kind is None and k < 0.57):
             body = self.compound(d, plain, kind=r.choice(["group", "subshell", "if", "for", "case", "while", "arith"]))
@@ -409,6 +416,7 @@ class DGen:
             toks += self.redir(d, plain)
             if r.random() < 0.3:
                 toks += self.redir(d, plain)
+        self.last_compound = True
         return toks
 
     def program(self, d=3):
